@@ -19,7 +19,7 @@ pub const RULE: &str = "lanes: (call-decode) call objects built from 9 method te
 tagged enum with unit / struct variants and borrowed / owned fields, strict struct, a catch-all \
 type that records every member it is shown, the library's org.varlink.service method type with \
 parameters absent / null / {} for GetInfo) x all 8 flag sets x explicit `false` for unset flags x \
-0..2 unknown members x every permutation of the members (every 7th permutation for 7 members), \
+0..2 unknown members (fixed names; in a sampled lane names generated from ASCII and 2-4-byte characters, 1..60 bytes, raw or \\u-escaped) x every permutation of the members (every 7th permutation for 7 members), \
 decoded from text as Call<M>: flags as written (absent = false), the method value equal to the \
 reference decode of M from the same object without the flag members; (call-encode) Call values x \
 8 flag sets through serde_json and through zlink's own serializer on the send path: the method \
@@ -120,6 +120,12 @@ pub struct CallText {
     pub explicit_false: bool,
     pub unknown: u8,
     pub order: Vec<usize>,
+    /// 0: the unknown members are called `x-unknown<i>`; otherwise the seed of generated member
+    /// names of about `ulen` bytes mixing ASCII with 2-, 3- and 4-byte characters
+    #[serde(default)]
+    pub uname: u16,
+    #[serde(default)]
+    pub ulen: u8,
 }
 
 const FLAG_NAMES: [&str; 3] = ["oneway", "more", "upgrade"];
@@ -139,9 +145,17 @@ impl CallText {
             }
         }
         for i in 0..self.unknown {
-            v.push((format!("x-unknown{i}"), if i == 0 { "[1,2]".into() } else { "\"u\"".into() }));
+            v.push((self.unknown_name(i), if i == 0 { "[1,2]".into() } else { "\"u\"".into() }));
         }
         v
+    }
+    pub fn unknown_name(&self, i: u8) -> String {
+        if self.uname == 0 {
+            return format!("x-unknown{i}");
+        }
+        let bytes = vcommon::srv::soup_content(self.uname.wrapping_add(i as u16 * 7919), self.ulen.max(1) as usize, false);
+        let s = String::from_utf8(bytes).unwrap_or_default();
+        if s.is_empty() { format!("x-unknown{i}") } else { s }
     }
     /// Both texts with every member re-spelled the same way (escapes / white space inside members).
     fn spelled(&self, choices: &[u8], strip: bool) -> String {
@@ -253,8 +267,8 @@ pub fn check_call_text_spelled(ct: &CallText, choices: &[u8], stats: &mut Stats)
                 return Err(Fail::new("flag-visible-to-method-type", format!("{text}: the method type saw {:?}", c.method().rest.keys().collect::<Vec<_>>())));
             }
             for i in 0..ct.unknown {
-                if !c.method().rest.contains_key(&format!("x-unknown{i}")) {
-                    return Err(Fail::new("member-not-passed-through", format!("{text}: the method type was not shown x-unknown{i}")));
+                if !c.method().rest.contains_key(&ct.unknown_name(i)) {
+                    return Err(Fail::new("member-not-passed-through", format!("{text}: the method type was not shown {:?}", ct.unknown_name(i))));
                 }
             }
         }
@@ -268,7 +282,7 @@ fn all_call_texts() -> Vec<CallText> {
         for flags in 0..8u8 {
             for explicit_false in [false, true] {
                 for unknown in 0..=2u8 {
-                    let base = CallText { tmpl, flags, explicit_false, unknown, order: vec![] };
+                    let base = CallText { tmpl, flags, explicit_false, unknown, order: vec![], uname: 0, ulen: 0 };
                     let n = base.n_members();
                     let perms = permutations(n);
                     let stride = if n >= 7 { 7 } else { 1 };
@@ -779,6 +793,32 @@ pub fn run(ctx: &Ctx) -> i32 {
     );
     stats.merge(s6);
     viol.extend(v6);
+    // unknown members with generated names: 1..60 bytes of ASCII and multi-byte characters, written
+    // raw or with \\uXXXX escapes, in any position
+    let (s7, v7) = run_shards(
+        ctx,
+        "call-unknown-names",
+        shards,
+        cases,
+        || (any::<u32>(), 1u16..u16::MAX, 1u8..60, prop::collection::vec(any::<u8>(), 0..24)),
+        |(fi, uname, ulen, choices), stats| {
+            let idx = ((*fi as u64 * texts_ref.len() as u64) >> 32) as usize;
+            let mut ct = texts_ref[idx].clone();
+            ct.uname = *uname;
+            ct.ulen = *ulen;
+            if ct.unknown > 0 {
+                stats.class("call:generated-unknown-member-name");
+                let n = ct.unknown_name(0);
+                if !n.is_ascii() && n.chars().count() <= 32 && n.len() > 32 {
+                    stats.class("call:unknown-name<=32-chars->32-bytes");
+                }
+            }
+            stats.sample(|| json!({"lane": "call-unknown-names", "text": ct.text_spelled(choices)}));
+            check_call_text_spelled(&ct, choices, stats)
+        },
+    );
+    stats.merge(s7);
+    viol.extend(v7);
     let (s2, v2) = run_shards(
         ctx,
         "call-encode",
@@ -889,6 +929,17 @@ pub fn replay(lane: &str, case: Value) -> CaseResult {
             let idx = ((fi * texts.len() as u64) >> 32) as usize;
             println!("text: {}", texts[idx].text_spelled(&choices));
             check_call_text_spelled(&texts[idx], &choices, &mut stats)
+        }
+        "call-unknown-names" => {
+            let texts = all_call_texts();
+            let fi = case[0].as_u64().unwrap_or(0);
+            let choices: Vec<u8> = serde_json::from_value(case[3].clone()).map_err(bad)?;
+            let idx = ((fi * texts.len() as u64) >> 32) as usize;
+            let mut ct = texts[idx].clone();
+            ct.uname = case[1].as_u64().unwrap_or(0) as u16;
+            ct.ulen = case[2].as_u64().unwrap_or(0) as u8;
+            println!("text: {}", ct.text_spelled(&choices));
+            check_call_text_spelled(&ct, &choices, &mut stats)
         }
         "call-encode" => check_enc_case(&serde_json::from_value(case).map_err(bad)?, &mut stats),
         "errors" => check_err_case(&serde_json::from_value(case).map_err(bad)?, &mut stats),
